@@ -55,6 +55,10 @@ _m('tenth', 'int', 'float')(lambda v: v * 0.1)
 _m('finc', 'float', 'float')(lambda v: v + 0.25)
 _m('fneg', 'float', 'float')(lambda v: -v)
 _m('fint', 'float', 'int')(lambda v: int(max(-1e15, min(1e15, v))))      # stays inside int64 whatever the float (typed state arrays)
+# values that are equal across types and signs but distinguishable: 1 == 1.0 == True, 0 == 0.0 == -0.0 == False
+_m('mixed_eq', 'int', 'any')(lambda v: [1, 1.0, True, 0, 0.0, -0.0, False, 2][v % 8])
+# numpy arrays as items (flat_map iterates them): [], [0], [0, 1] - a one-element array holding 0 is non-empty but false
+_m('to_nparr', 'int', 'nparr')(lambda v: _np.arange(v % 3))
 _m('pair', 'int', 'pair')(lambda v: (v, v % 3))
 _m('swap', 'pair', 'pair')(lambda p: (p[1], p[0]))
 _m('fst', 'pair', 'int')(lambda p: p[0])
@@ -166,6 +170,8 @@ _k('rv_obj', 'rec')(lambda r: _PLAIN[r.v % 3])          # the very same object f
 # an impure key mapper (round-robin sharding: the answer does not depend on the item).  The builder creates a fresh
 # counter per pipeline and records every answer; the partition model uses the recorded answers (one call per item)
 _k('rr3', 'rec_impure')(lambda r: 0)
+# an impure split predicate (a counter: "a new segment every third call"); same construction, split only (C06)
+_k('cnt3', 'rec_impure_split')(lambda r: 0)
 _k('rn_div3', 'rec')(lambda r: 'run-%d' % (r.n // 3))
 _k('pk0', 'pair')(lambda p: p[0] % 3)
 _k('fk', 'float')(lambda v: int(max(-1e15, min(1e15, v))) % 3)
@@ -355,6 +361,15 @@ def time_of_np_float(r):
 
 def time_of_np_dt64(r):
     return _np.datetime64('2020-01-01T00:00:00') + _np.timedelta64(int(r.t), 's')
+
+
+class FalsyCloser(object):
+    """a closing_mapper that is a callable object with a false truth value (it has a length, and it is empty)"""
+    def __call__(self, r):
+        return closing_of(r)
+
+    def __len__(self):
+        return 0
 
 
 def closing_of(r):
